@@ -24,7 +24,9 @@ def entry(w, loc, user, uid, gid, home, dash="", ext=""):
 
 
 def render_line(e):
-    return (b"+" if e["w"] else b"=") + e["loc"] + b":" + e["user"] + b":" + str(e["uid"]).encode() + b":" + str(e["gid"]).encode() + \
+    # "uidtext": the uid field as written when it is not the decimal form of e["uid"]: a non-zero multiple of 2^32 narrows
+    # to uid 0 in a 32-bit uid_t, i.e. it denotes root; the model is told uid 0 for such an entry ("never as root")
+    return (b"+" if e["w"] else b"=") + e["loc"] + b":" + e["user"] + b":" + str(e.get("uidtext", e["uid"])).encode() + b":" + str(e["gid"]).encode() + \
         b":" + e["home"] + b":" + e["dash"] + b":" + e["ext"] + b":\n"
 
 
